@@ -293,7 +293,7 @@ impl Property for C10 {
         "C10"
     }
     fn rule(&self) -> &'static str {
-        "case = one IntCounterVec / CounterVec / GaugeVec with 1-2 label names and 2-3 overlapping (boundary-shifted) tuples (20%: the same shapes around U+00FF and NUL); either \
+        "case = one IntCounterVec / CounterVec / GaugeVec with 1-2 label names (two: declared as a,b or as b,a) and 2-3 overlapping (boundary-shifted) tuples (20%: the same shapes around U+00FF and NUL); either \
          2-3 threads x 2-5 operations under a generated schedule (walk / PCT / window), or one thread with up to 40 operations \
          (sequential history). Operations: get-or-create (slice or map form) binding a handle, inc_by(2^i) / get through a handle, \
          remove (slice or map form), reset, collect, a wrong-arity request; 1.5% of the concurrent programs run on a vector that \
@@ -325,7 +325,8 @@ impl Property for C10 {
 
     fn run(&self, src: &mut Src, rep: &mut Report) -> Verdict {
         let two = src.chance(100);
-        let names: Vec<&'static str> = if two { vec!["a", "b"] } else { vec!["a"] };
+        // (declared in sorted order or not: label values are positional in the declared order, whatever the names are)
+        let names: Vec<&'static str> = if two { if src.chance(128) { vec!["b", "a"] } else { vec!["a", "b"] } } else { vec!["a"] };
         let odd = src.chance(50);
         let pool: Vec<Tuple> = (match (two, odd) {
             (true, false) => T2,
